@@ -14,165 +14,15 @@ open Gen
 
 /-! ## component level: the translated branch is the intended one -/
 
-/-- the kinds property C02 quantifies over that the current code translates faithfully
-(`conductance`, `admittance` are missing from the table — finding of C07) -/
-def exactKinds : List String :=
-  ["resistor", "impedance", "capacitor", "inductance", "lamp", "resistive_load", "short_circuit",
-   "dc_voltage_source", "ac_voltage_source", "complex_voltage_source", "dc_current_source", "ac_current_source"]
-
-/-- a DC source as its constructor writes it: the stored frequency is 0 -/
-def Component.dcOK (c : Component) : Prop :=
-  (c.kind = "dc_voltage_source" ∨ c.kind = "dc_current_source") → c.value.lookup "w" = some (.num 0)
-
-theorem branchOf_inv {trig : Trig} {harm : Harm} {c : Component} {w wres : Rat} {sb : Branch String GQ}
-    (h : Spec.branchOf trig harm c w wres = some sb) :
-    ∃ a b e, c.nodes = [a, b] ∧ Spec.elemOf trig harm c w wres = some e ∧
-      sb = { n1 := a, n2 := b, id := c.id, e := e } := by
-  unfold Spec.branchOf at h
-  split at h
-  · rename_i a b e hn he
-    exact ⟨a, b, e, hn, he, by simpa using h.symm⟩
-  · cases h
-
-theorem erase_ite (p : Prop) [Decidable p] (x y : Branch String GQ) :
-    Spec.erase (if p then x else y) = if p then Spec.erase x else Spec.erase y := by
-  split <;> rfl
-
-/-- **C02 (component).**  For every kind in `exactKinds`: whenever the specification defines
-the intended branch of a component, the generated translator produces exactly it (same
-terminals, identifier and record), at every frequency and resolution. -/
+/-- **C02 (component).**  For every kind property C02 names (the kinds of C02 of C07: resistor,
+conductance, impedance, admittance, capacitor, inductance, lamp / load, short circuit, DC / AC /
+complex sources): whenever the specification defines the intended branch of a component, the
+generated translator produces exactly it, at every frequency and resolution. -/
 theorem C02_component_eq_spec (trig : Trig) (harm : Harm) (h0 : TrigZero trig) (c : Component) (w wres : Rat)
     (sb : Branch String GQ) (hk : c.kind ∈ exactKinds) (hdc : c.dcOK)
     (hs : Spec.branchOf trig harm c w wres = some sb) :
-    ∃ br, transformComponent Gen.tables trig harm c w wres = some (.ok br) ∧ Spec.erase br = sb := by
-  obtain ⟨a, b, e, hn, he, rfl⟩ := branchOf_inv hs
-  simp only [exactKinds, List.mem_cons, List.mem_nil_iff, or_false] at hk
-  rcases hk with hk | hk | hk | hk | hk | hk | hk | hk | hk | hk | hk | hk
-  · -- resistor
-    cases hR : Spec.num? c "R" with
-    | none => simp [Spec.elemOf, hk, hR] at he
-    | some R =>
-      simp [Spec.elemOf, hk, hR] at he; subst he
-      exact ⟨_, (C07_faithful_resistor trig harm c w wres a b R hk hn (lookup_of_num? hR)).1, rfl⟩
-  · -- impedance
-    cases hR : Spec.num? c "R" with
-    | none => simp [Spec.elemOf, hk, hR] at he
-    | some R =>
-      cases hX : Spec.num? c "X" with
-      | none => simp [Spec.elemOf, hk, hR, hX] at he
-      | some X =>
-        simp [Spec.elemOf, hk, hR, hX] at he; subst he
-        exact ⟨_, (C07_faithful_impedance trig harm c w wres a b R X hk hn (lookup_of_num? hR) (lookup_of_num? hX)).1, rfl⟩
-  · -- capacitor
-    cases hC : Spec.num? c "C" with
-    | none => simp [Spec.elemOf, hk, hC] at he
-    | some C =>
-      simp [Spec.elemOf, hk, hC] at he; subst he
-      exact ⟨_, (C07_faithful_capacitor trig harm c w wres a b C hk hn (lookup_of_num? hC)).1, rfl⟩
-  · -- inductance
-    cases hL : Spec.num? c "L" with
-    | none => simp [Spec.elemOf, hk, hL] at he
-    | some L =>
-      simp [Spec.elemOf, hk, hL] at he; subst he
-      exact ⟨_, (C07_faithful_inductance trig harm c w wres a b L hk hn (lookup_of_num? hL)).1, rfl⟩
-  · -- lamp
-    cases hP : Spec.num? c "P" with
-    | none => simp [Spec.elemOf, hk, hP] at he
-    | some P =>
-      cases hV : Spec.num? c "V_ref" with
-      | none => simp [Spec.elemOf, hk, hP, hV] at he
-      | some V =>
-        by_cases hpos : 0 < V
-        · simp [Spec.elemOf, hk, hP, hV, hpos] at he; subst he
-          exact ⟨_, (C07_faithful_load trig harm c w wres a b P V (Or.inl hk) hn (lookup_of_num? hP) (lookup_of_num? hV) hpos).1, rfl⟩
-        · simp [Spec.elemOf, hk, hP, hV, hpos] at he
-  · -- resistive_load
-    cases hP : Spec.num? c "P" with
-    | none => simp [Spec.elemOf, hk, hP] at he
-    | some P =>
-      cases hV : Spec.num? c "V_ref" with
-      | none => simp [Spec.elemOf, hk, hP, hV] at he
-      | some V =>
-        by_cases hpos : 0 < V
-        · simp [Spec.elemOf, hk, hP, hV, hpos] at he; subst he
-          exact ⟨_, (C07_faithful_load trig harm c w wres a b P V (Or.inr hk) hn (lookup_of_num? hP) (lookup_of_num? hV) hpos).1, rfl⟩
-        · simp [Spec.elemOf, hk, hP, hV, hpos] at he
-  · -- short_circuit
-    simp [Spec.elemOf, hk] at he; subst he
-    exact ⟨_, (C07_faithful_short_circuit trig harm c w wres a b hk hn).1, rfl⟩
-  · -- dc_voltage_source
-    have hw := hdc (Or.inl hk)
-    cases hV : Spec.num? c "V" with
-    | none => simp [Spec.elemOf, hk, hV] at he
-    | some V =>
-      cases hR : Spec.num? c "R" with
-      | none => simp [Spec.elemOf, hk, hV, hR] at he
-      | some R =>
-        simp [Spec.elemOf, hk, hV, hR] at he; subst he
-        refine ⟨_, (C07_faithful_dc_voltage_source trig harm c w wres a b h0 V R hk hn (lookup_of_num? hV) (lookup_of_num? hR) hw).1, ?_⟩
-        rw [erase_ite]; split <;> simp [Spec.erase, Spec.shortE]
-  · -- ac_voltage_source
-    cases hV : Spec.num? c "V" with
-    | none => simp [Spec.elemOf, hk, hV] at he
-    | some V =>
-      cases hR : Spec.num? c "R" with
-      | none => simp [Spec.elemOf, hk, hV, hR] at he
-      | some R =>
-        cases hws : Spec.num? c "w" with
-        | none => simp [Spec.elemOf, hk, hV, hR, hws] at he
-        | some ws =>
-          cases hp : Spec.num? c "phi" with
-          | none => simp [Spec.elemOf, hk, hV, hR, hws, hp] at he
-          | some phi =>
-            simp [Spec.elemOf, hk, hV, hR, hws, hp] at he; subst he
-            refine ⟨_, (C07_faithful_ac_voltage_source trig harm c w wres a b h0 V R ws phi hk hn (lookup_of_num? hV)
-              (lookup_of_num? hR) (lookup_of_num? hws) (lookup_of_num? hp)).1, ?_⟩
-            rw [erase_ite]; split <;> simp [Spec.erase, Spec.shortE]
-  · -- complex_voltage_source
-    cases hVr : Spec.num? c "V_real" with
-    | none => simp [Spec.elemOf, hk, hVr] at he
-    | some Vr =>
-      cases hVi : Spec.num? c "V_imag" with
-      | none => simp [Spec.elemOf, hk, hVr, hVi] at he
-      | some Vi =>
-        cases hR : Spec.num? c "R" with
-        | none => simp [Spec.elemOf, hk, hVr, hVi, hR] at he
-        | some R =>
-          cases hX : Spec.num? c "X" with
-          | none => simp [Spec.elemOf, hk, hVr, hVi, hR, hX] at he
-          | some X =>
-            simp [Spec.elemOf, hk, hVr, hVi, hR, hX] at he; subst he
-            exact ⟨_, (C07_faithful_complex_voltage_source trig harm c w wres a b Vr Vi R X hk hn (lookup_of_num? hVr)
-              (lookup_of_num? hVi) (lookup_of_num? hR) (lookup_of_num? hX)).1, rfl⟩
-  · -- dc_current_source
-    have hw := hdc (Or.inr hk)
-    cases hI : Spec.num? c "I" with
-    | none => simp [Spec.elemOf, hk, hI] at he
-    | some I =>
-      cases hG : Spec.num? c "G" with
-      | none => simp [Spec.elemOf, hk, hI, hG] at he
-      | some G =>
-        simp [Spec.elemOf, hk, hI, hG] at he; subst he
-        refine ⟨_, (C07_faithful_dc_current_source trig harm c w wres a b h0 I G hk hn (lookup_of_num? hI) (lookup_of_num? hG) hw).1, ?_⟩
-        rw [erase_ite]; split <;> simp [Spec.erase, Spec.openE]
-  · -- ac_current_source
-    cases hI : Spec.num? c "I" with
-    | none => simp [Spec.elemOf, hk, hI] at he
-    | some I =>
-      cases hG : Spec.num? c "G" with
-      | none => simp [Spec.elemOf, hk, hI, hG] at he
-      | some G =>
-        cases hws : Spec.num? c "w" with
-        | none => simp [Spec.elemOf, hk, hI, hG, hws] at he
-        | some ws =>
-          cases hp : Spec.num? c "phi" with
-          | none => simp [Spec.elemOf, hk, hI, hG, hws, hp] at he
-          | some phi =>
-            simp [Spec.elemOf, hk, hI, hG, hws, hp] at he; subst he
-            refine ⟨_, (C07_faithful_ac_current_source trig harm c w wres a b h0 I G ws phi hk hn (lookup_of_num? hI)
-              (lookup_of_num? hG) (lookup_of_num? hws) (lookup_of_num? hp)).1, ?_⟩
-            rw [erase_ite]; split <;> simp [Spec.erase, Spec.openE]
-
+    ∃ br, transformComponent Gen.tables trig harm c w wres = some (.ok br) ∧ Spec.erase br = sb :=
+  C07_faithful_nonperiodic trig harm h0 c w wres sb hk hdc hs
 
 /-! ## circuit level: `transform_circuit` produces the intended phasor network -/
 
@@ -225,27 +75,30 @@ theorem check_erase (bs : List (Branch String GQ)) (z : String) :
   rfl
 
 theorem exactKinds_translated : ∀ k ∈ exactKinds, Gen.tables.hasKind k = true := by decide
-theorem ground_not_translated : Gen.tables.hasKind "ground" = false := by decide
 
 /-- the hypotheses under which C02 is proved for a component list: every entry is a ground
 or a well-formed component of an exactly translated kind -/
 def ExactList (cs : List Component) : Prop :=
   ∀ c ∈ cs, c.kind = "ground" ∨ (c.kind ∈ exactKinds ∧ c.dcOK)
 
-/-- **C02 (transform = spec), restricted to the kinds the code translates.**  For every
-accepted circuit over `exactKinds` whose intended phasor network `S` exists, at every
-frequency `w` and resolution: the comprehension of `transform_circuit` succeeds and its
-branches are — entry by entry, in order — the branches of `S`; the reference node is that of
-`S`; and `transform_circuit` itself succeeds exactly when `S` passes `Network`'s checks. -/
-theorem C02_transform_eq_spec_partial (trig : Trig) (harm : Harm) (h0 : TrigZero trig)
-    (cs : List Component) (C : Circuit) (w wres : Rat) (hne : cs ≠ [])
-    (hC : Circuit.mk? cs = .ok C) (hex : ExactList cs)
-    (S : Net String GQ) (hS : Spec.phasorNet trig harm cs w wres = some S) :
+/-- the statement: for every accepted circuit over the kinds property C02 names whose intended
+phasor network `S` exists, at every frequency `w` and resolution, the comprehension of
+`transform_circuit` succeeds and its branches are — entry by entry, in order — the branches of
+`S`; the reference node is that of `S`; and `transform_circuit` itself succeeds whenever `S`
+passes `Network`'s checks -/
+def C02_transform_eq_spec_statement : Prop :=
+  ∀ (trig : Trig) (harm : Harm), TrigZero trig → ∀ (cs : List Component) (C : Circuit) (w wres : Rat),
+    cs ≠ [] → Circuit.mk? cs = .ok C → ExactList cs →
+    ∀ S : Net String GQ, Spec.phasorNet trig harm cs w wres = some S →
     (∃ bs, transformBranches Gen.tables trig harm C.components w wres = .ok bs ∧
         bs.map Spec.erase = S.branches ∧ C.ground = S.zero) ∧
     (S.check = .ok () →
       ∃ N, transformCircuit Gen.tables trig harm C w wres = .ok N ∧
-        N.branches.map Spec.erase = S.branches ∧ N.zero = S.zero) := by
+        N.branches.map Spec.erase = S.branches ∧ N.zero = S.zero)
+
+/-- **C02 (transform = spec).** -/
+theorem C02_transform_eq_spec : C02_transform_eq_spec_statement := by
+  intro trig harm h0 cs C w wres hne hC hex S hS
   obtain ⟨hg, hcomp⟩ := C07_ground cs C hne hC
   unfold Spec.phasorNet at hS
   cases hbs : (Spec.nonGround cs).mapM (fun c => Spec.branchOf trig harm c w wres) with
@@ -290,47 +143,6 @@ theorem C02_transform_eq_spec_partial (trig : Trig) (harm : Harm) (h0 : TrigZero
         rw [← check_erase, hmap, hgz]; exact hcheck
       simp [htb, hc2, bind, Except.bind, pure, Except.pure]
 
-/-- the full statement: as above for every kind property C02 names, i.e. including
-`conductance` and `admittance` -/
-def C02_transform_eq_spec_statement : Prop :=
-  ∀ (trig : Trig) (harm : Harm), TrigZero trig → ∀ (cs : List Component) (C : Circuit) (w wres : Rat),
-    cs ≠ [] → Circuit.mk? cs = .ok C →
-    (∀ c ∈ cs, c.kind = "ground" ∨ ((c.kind ∈ exactKinds ∨ c.kind = "conductance" ∨ c.kind = "admittance") ∧ c.dcOK)) →
-    ∀ S, Spec.phasorNet trig harm cs w wres = some S →
-    ∃ bs, transformBranches Gen.tables trig harm C.components w wres = .ok bs ∧ bs.map Spec.erase = S.branches
-
-/-- **finding** (same defect as `C07_dropped_counterexample`): with a conductance in the
-circuit the produced network has fewer branches than the intended one -/
-theorem C02_transform_eq_spec_counterexample : ¬ C02_transform_eq_spec_statement := by
-  intro h
-  let cs : List Component :=
-    [⟨"ground", "gnd", ["0"], []⟩,
-     ⟨"dc_current_source", "I", ["0", "1"], [("I", .num 1), ("G", .num 0), ("w", .num 0), ("phi", .num 0)]⟩,
-     ⟨"conductance", "G", ["1", "0"], [("G", .num 2)]⟩]
-  have hC : Circuit.mk? cs = .ok ⟨cs, "0"⟩ := by decide
-  have hS : Spec.phasorNet (fun _ => (1, 0)) (fun _ _ _ _ => (0, 0)) cs 0 0
-      = some ⟨[⟨"0", "1", "I", "", .thevenin ⟨0, 0⟩ ⟨1, 0⟩⟩, ⟨"1", "0", "G", "", .thevenin ⟨2, 0⟩ 0⟩], "0"⟩ := by
-    have hb : (Spec.nonGround cs).mapM (fun c => Spec.branchOf (fun _ => (1, 0)) (fun _ _ _ _ => (0, 0)) c 0 0)
-        = some [⟨"0", "1", "I", "", .thevenin ⟨0, 0⟩ ⟨1, 0⟩⟩, ⟨"1", "0", "G", "", .thevenin ⟨2, 0⟩ 0⟩] := by
-      decide +kernel
-    have hg : Spec.groundOf cs = some "0" := by decide
-    simp [Spec.phasorNet, hb, hg]
-  have hm : transformBranches Gen.tables (fun _ => (1, 0)) (fun _ _ _ _ => (0, 0)) cs 0 0
-      = .ok [⟨"0", "1", "I", "current_source", .thevenin ⟨0, 0⟩ ⟨1, 0⟩⟩] := by decide +kernel
-  obtain ⟨bs, hbs, hmap⟩ := h (fun _ => (1, 0)) (fun _ _ _ _ => (0, 0)) rfl cs ⟨cs, "0"⟩ 0 0 (by decide) hC
-    (by
-      intro c hc
-      simp only [cs, List.mem_cons, List.mem_nil_iff, or_false] at hc
-      rcases hc with rfl | rfl | rfl
-      · left; rfl
-      · right; exact ⟨Or.inl (by decide), fun _ => rfl⟩
-      · right; exact ⟨Or.inr (Or.inl rfl), fun h => by rcases h with h | h <;> exact absurd h (by decide)⟩)
-    _ hS
-  rw [hm] at hbs
-  simp only [Except.ok.injEq] at hbs
-  subst hbs
-  simp [Spec.erase] at hmap
-
 /-! ## the reported quantities solve the circuit equations of the intended network -/
 
 /-- the circuit equations do not look at the `type` string of an element -/
@@ -358,7 +170,7 @@ theorem circuitEqs_erase (bs : List (Branch String GQ)) (z : String) (R : Report
 section Exact
 
 /-- **C02 (exact).**  Let `S` be the intended phasor network of an accepted circuit over
-`exactKinds` at frequency `w` (inductor `jwL`, capacitor `jwC`, source at `w` ↦ its phasor,
+the kinds of C02 at frequency `w` (inductor `jwL`, capacitor `jwC`, source at `w` ↦ its phasor,
 other sources short / open), valid as a network and without self-loop branches.  Then
 `transform_circuit` yields a network `N`, and for **every** vector `x` that solves the matrix
 equation the code builds for `N` (whatever `numpy.linalg.solve` returns), the potentials,
@@ -375,7 +187,7 @@ theorem C02_exact (trig : Trig) (harm : Harm) (h0 : TrigZero trig)
         (∀ n ∈ N.allLabels, N.potential x n = .ok ((N.reportOf x).pot n)) ∧
         (∀ b ∈ N.branches, N.voltage x b.id = .ok ((N.reportOf x).v b.id) ∧
                             N.current x b.id = .ok ((N.reportOf x).i b.id)) := by
-  obtain ⟨N, hN, hmap, hz⟩ := (C02_transform_eq_spec_partial trig harm h0 cs C w wres hne hC hex S hS).2 hcheck
+  obtain ⟨N, hN, hmap, hz⟩ := (C02_transform_eq_spec trig harm h0 cs C w wres hne hC hex S hS).2 hcheck
   refine ⟨N, hN, ?_⟩
   intro x hx hsolve
   have hNcheck : N.check = .ok () := by
